@@ -715,6 +715,26 @@ class ApplicationStartJobs(ApplicationJobs):
                 self.logger.debug(f'ApplicationStartJobs.on_command_added: {command.process.namespec} cannot'
                                   f' be started on any of the chosen Supvisors among {self.identifiers}')
 
+    def on_instances_invalidation(self, invalidated_identifiers: NameList,
+                                  failed_processes: Set[ProcessStatus]) -> None:
+        """ Clear the jobs in progress if requests are pending on the Supvisors instances recently declared
+        SILENT, and forget these Supvisors instances where they have been chosen beforehand to start the planned jobs
+        of a non-distributed application.
+
+        :param invalidated_identifiers: the identifiers of the Supvisors instances that have just been declared SILENT
+        :param failed_processes: the processes that were running on the invalidated Supvisors instances
+        :return: None
+        """
+        super().on_instances_invalidation(invalidated_identifiers, failed_processes)
+        self.identifiers = [identifier for identifier in self.identifiers
+                            if identifier not in invalidated_identifiers]
+        for command in sum(self.planned_jobs.values(), []):
+            if command.identifier in invalidated_identifiers:
+                self.logger.warn(f'ApplicationStartJobs.on_instances_invalidation: {command.process.namespec}'
+                                 f' cannot be started on the lost Supvisors={command.identifier}')
+                command.identifier = None
+                command.instance_status = None
+
     def get_load_requests(self) -> LoadMap:
         """ Extract by Supvisors instance the processes that are planned to start but still stopped
         and sum their expected load.
